@@ -252,6 +252,10 @@ func (a *addArrayStrategy) evaluate(m *MethodEvaluator) error {
 		return err
 	}
 
+	if len(evaluatedArgs) == 0 {
+		return nil
+	}
+
 	arrayT := m.evaluatedObjectT
 	argT := evaluatedArgs[0]
 
